@@ -188,6 +188,13 @@ func TestC15Race(t *testing.T) {
 			}(g)
 		}
 		time.Sleep(runFor)
+		if nudp > 0 && knownFinding("pion-udp-accept-close-race") {
+			// known finding (see known_findings.txt): Close while a new UDP peer's first datagram is pending
+			// acceptance trips a WaitGroup misuse inside pion/transport. Excluded by construction while listed:
+			// every UDP peer gets time to be accepted before Close.
+			time.Sleep(30 * time.Millisecond)
+			rec.Class("excluded:new-udp-peer-pending-at-close(known finding)", 1)
+		}
 		if leaveBeforeClose {
 			// peers vanish right before Close: their channels are terminating by themselves while the node terminates
 			peersMu.Lock()
